@@ -3,7 +3,7 @@ from __future__ import annotations
 
 import z3
 
-from .kinds import V, INT, BOOL, REAL, NONE, Opaque, Ref, Tup, ListT, DictT, ObjT, Kind, FN, parse_kind, is_list
+from .kinds import V, INT, BOOL, REAL, NONE, Opaque, Ref, Tup, ListT, DictT, ObjT, Kind, FN, parse_kind, is_list, is_obj
 from .state import State, Unsupported, fresh, I
 
 
@@ -502,12 +502,28 @@ class HeapMixin:
             return V(NONE, None)
         val = self.from_term(kind, self.sel(st, self.H.fld_arr(st, f, kind.sort()), obj.term))
         self.assume_wf(st, val)
+        if isinstance(kind, Ref) and is_obj(obj.kind) and self.is_owned_field(obj.kind.target.cls, f):
+            # ownership invariant of the class: the object stored here belongs to exactly this instance
+            own = z3.Function("owner_" + f, I, I)
+            self.add_fact(st, z3.Implies(obj.term != 0, own(val.term) == obj.term))
         self.assume_entry_wf(st, kind, self.H.n_fld(f, kind.sort()), obj.term)
         return val
+
+    def is_owned_field(self, cls: str, f: str) -> bool:
+        for c in self.reg.mro(cls):
+            ci = self.reg.classes.get(c)
+            if ci is not None and f in ci.owned:
+                return True
+        return False
 
     def fset(self, st: State, obj: V, f: str, kind: Kind, val: V, node=None, ghost=False):
         if not ghost:
             self.check_frame(st, "field:" + f, obj.term, node)
+        if is_obj(obj.kind) and self.is_owned_field(obj.kind.target.cls, f) and isinstance(val.kind, Ref):
+            # an owned field may only receive an object allocated by the current unit and not stored elsewhere
+            self.oblige(st, "safe", f"owned-field:{f}", val.term >= self.top0, node, note="owned field must receive a freshly allocated object")
+            own = z3.Function("owner_" + f, I, I)
+            st.assume(own(val.term) == obj.term)
         name = self.H.n_fld(f, kind.sort())
         st.heap[name] = z3.Store(self.H.fld_arr(st, f, kind.sort()), obj.term, self.to_term(val, kind))
 
